@@ -74,7 +74,14 @@ func TestVerifC19Net(t *testing.T) {
 			json.NewEncoder(w).Encode(map[string]interface{}{"State": state, "Peers": peersForStatus, "CurrentTime": time.Now().Add(off)})
 		}))
 	}
-	servers := map[string]*httptest.Server{"good": mk(0, "Leader"), "good2": mk(0, "Follower"), "ahead": mk(time.Hour, "Candidate"), "behind": mk(-time.Hour, "Follower")}
+	mkSlow := func(off, delay time.Duration) *httptest.Server {
+		return httptest.NewTLSServer(http.HandlerFunc(func(w http.ResponseWriter, r *http.Request) {
+			time.Sleep(delay)
+			w.Header().Set("Content-Type", "application/json")
+			json.NewEncoder(w).Encode(map[string]interface{}{"State": "Follower", "Peers": peersForStatus, "CurrentTime": time.Now().Add(off)})
+		}))
+	}
+	servers := map[string]*httptest.Server{"slow": mkSlow(time.Hour, 2500*time.Millisecond), "good": mk(0, "Leader"), "good2": mk(0, "Follower"), "ahead": mk(time.Hour, "Candidate"), "behind": mk(-time.Hour, "Follower")}
 	for _, s := range servers {
 		defer s.Close()
 	}
@@ -114,6 +121,9 @@ func TestVerifC19Net(t *testing.T) {
 		}
 	}
 	rec(nil)
+	// a peer that answers slowly (2.5 s: longer than the election timeout, well inside the HTTP timeout) with a
+	// clock one hour ahead: it answered, so it counts
+	tuples = append(tuples, []string{"slow"}, []string{"good", "slow"}, []string{"slow", "good"}, []string{"slow", "silent"})
 	ci := 0
 	for _, tu := range tuples {
 		for _, disabled := range []bool{false, true} {
@@ -132,7 +142,7 @@ func TestVerifC19Net(t *testing.T) {
 						a = addr("good2")
 					}
 					peers = append(peers, a)
-					if kind == "ahead" || kind == "behind" {
+					if kind == "ahead" || kind == "behind" || kind == "slow" {
 						bad = true
 					}
 				}
